@@ -36,8 +36,8 @@ ASSUMPTIONS = [
 ]
 SHARDS = {"quick": 16, "thorough": 16}
 MINIMUMS = {
-    "quick": {"filter_evaluations": 100000, "op:=": 10000, "op:in": 10000, "op:not in": 10000, "op:~": 10000, "chains_mixed": 4000, "clean_cases": 900, "orphan_cases": 400, "dirs_deleted": 1000, "dirs_kept": 4000, "running_jobs_present": 1500},
-    "thorough": {"filter_evaluations": 600000, "op:=": 90000, "op:in": 90000, "op:not in": 90000, "op:~": 90000, "chains_mixed": 30000, "clean_cases": 5000, "orphan_cases": 4000, "dirs_deleted": 3000, "dirs_kept": 15000, "running_jobs_present": 2500},
+    "quick": {"filter_evaluations": 100000, "op:=": 10000, "op:in": 10000, "op:not in": 10000, "op:~": 10000, "chains_mixed": 4000, "clean_cases": 900, "orphan_cases": 400, "dirs_deleted": 1000, "dirs_kept": 4000, "running_jobs_present": 1500, "linked_jobs_present": 80, "orphan_links_present": 50, "clean_cases_with_experiment": 250},
+    "thorough": {"filter_evaluations": 600000, "op:=": 90000, "op:in": 90000, "op:not in": 90000, "op:~": 90000, "chains_mixed": 30000, "clean_cases": 5000, "orphan_cases": 4000, "dirs_deleted": 3000, "dirs_kept": 15000, "running_jobs_present": 2500, "linked_jobs_present": 800, "orphan_links_present": 500, "clean_cases_with_experiment": 2500},
 }
 N = {"quick": (32000, 1920), "thorough": (800000, 40000)}
 TIMEOUT = {"quick": 900, "thorough": 10800}
@@ -212,8 +212,27 @@ def make_workspace(ctx, rng, sleepers):
             (p / f"{n}.pid").write_text(json.dumps({"type": "local", "pid": sl.pid}))
             ctx.count("running_jobs_present")
         (p / "payload.txt").write_text("data")
-    # experiments: index and backup index
+    # a job repaired after a class deprecation ('deprecated list --fix'): its directory stays under the former
+    # identifier and jobs/<new type>/<new identifier> is a link to it; experiments index the new location
     indexed = set()
+    if rng.random() < 0.35:
+        j = rng.choice(jobs)
+        newrel = f"xvdep.renamed.{j['name']}/" + "ab" * 32
+        newpath = wd / "jobs" / newrel
+        newpath.parent.mkdir(parents=True, exist_ok=True)
+        newpath.symlink_to(j["path"])
+        if rng.random() < 0.6:
+            xdir = wd / "xp" / "xplinked" / "jobs" / newrel
+            xdir.parent.mkdir(parents=True, exist_ok=True)
+            xdir.symlink_to(newpath)
+            j["linked_from"] = newrel
+            j.setdefault("xps", []).append("xplinked")
+            indexed.add(j["rel"])  # reachable from an experiment index through the link
+            ctx.count("linked_jobs_present")
+        else:
+            # repaired but never resubmitted: the link itself is indexed by no experiment
+            ctx.count("orphan_links_present")
+    # experiments: index and backup index
     for xi in range(rng.randint(1, 3)):
         xdir = wd / "xp" / f"xp{xi}"
         for kind in ("jobs", "jobs.bak"):
@@ -226,6 +245,7 @@ def make_workspace(ctx, rng, sleepers):
                     if not link.is_symlink():
                         link.symlink_to(j["path"])
                         indexed.add(j["rel"])
+                        j.setdefault("xps" if kind == "jobs" else "xps_bak", []).append(f"xp{xi}")
             if rng.random() < 0.3:
                 # a dangling link: indexed job whose directory is gone
                 link = xdir / kind / "xvmodels.zoo.taskt" / ("f" * 64)
@@ -237,7 +257,7 @@ def make_workspace(ctx, rng, sleepers):
 
 
 def tree(wd):
-    return sorted(str(p.relative_to(wd / "jobs")) for p in (wd / "jobs").glob("*/*") if p.is_dir())
+    return sorted(str(p.relative_to(wd / "jobs")) for p in (wd / "jobs").glob("*/*") if p.is_dir() and not p.is_symlink())
 
 
 def part2(ctx, rng, n):
@@ -264,6 +284,11 @@ def part2(ctx, rng, n):
                     args += ["--filter", text]
                 if perform:
                     args.append("--perform")
+                xpname = None
+                if rng.random() < 0.35:
+                    xpname = rng.choice(["xp0", "xp0", "xp1", "xp2", "xplinked"])
+                    args += ["--experiment", xpname]
+                    ctx.count("clean_cases_with_experiment")
                 res = runner.invoke(cli, args)
                 ctx.count("clean_cases")
                 w = {"command": args[:2] + ["<ws>"] + args[3:], "jobs": [{k: str(v) for k, v in j.items()} for j in jobs]}
@@ -275,12 +300,23 @@ def part2(ctx, rng, n):
                     continue
                 after = tree(wd)
                 want_gone = set()
+                may_go = set()  # in the experiment's backup index only: either reading of "this experiment" is accepted
                 for j in jobs:
                     selected = atom is None or ref_atom(atom, {"tags": j["tags"], "state": None, "name": ""})
                     finished = ("done" in j["state"] or "failed" in j["state"]) and "running" not in j["state"]
                     if perform and selected and finished:
-                        want_gone.add(j["rel"])
+                        if xpname is None or xpname in j.get("xps", []):
+                            want_gone.add(j["rel"])
+                        elif xpname in j.get("xps_bak", []):
+                            may_go.add(j["rel"])
                 gone = set(before) - set(after)
+                if xpname is not None:
+                    other = {r for r in gone - want_gone - may_go if "running" not in next(j["state"] for j in jobs if j["rel"] == r)}
+                    if other:
+                        ctx.violation("clean-deletes-job-of-other-experiment", f"{args[3:]}: deleted {sorted(other)}, which experiment {xpname} does not index (its jobs: {sorted(j['rel'] for j in jobs if xpname in j.get('xps', []))})", w)
+                        gone = gone - other
+                    gone = gone - (may_go - want_gone)
+                    ctx.count("dirs_deleted_with_experiment", len(gone))
                 ctx.count("dirs_deleted", len(gone))
                 ctx.count("dirs_kept", len(after))
                 for j in jobs:
@@ -300,20 +336,27 @@ def part2(ctx, rng, n):
                 ctx.count("orphan_cases")
                 w = {"command": ["orphans", "<ws>"] + args[2:], "jobs": [{k: str(v) for k, v in j.items()} for j in jobs], "indexed": sorted(indexed)}
                 if res.exception is not None and not isinstance(res.exception, SystemExit):
-                    ctx.violation("orphans-command-raises", f"raised {res.exception!r}", w)
+                    ctx.violation("orphans-command-raises" + (":link-in-jobs-tree" if "symbolic link" in repr(res.exception) else ""), f"raised {res.exception!r}", w)
                     continue
                 after = tree(wd)
                 gone = set(before) - set(after)
                 want_gone = {j["rel"] for j in jobs if j["rel"] not in indexed} if clean else set()
                 ctx.count("dirs_deleted", len(gone))
                 ctx.count("dirs_kept", len(after))
+                linked_lost = [j["rel"] for j in jobs if j.get("linked_from") and j["rel"] in gone]
+                if linked_lost:
+                    ctx.violation("orphans-deletes-job-reached-through-link", f"deleted {linked_lost}: the directory is what an indexed job (jobs/{[j['linked_from'] for j in jobs if j.get('linked_from')][0][:40]}..., a link made by the deprecation repair) resolves to", w)
+                    gone = gone - set(linked_lost)
                 if gone - want_gone:
                     ctx.violation("orphans-deletes-indexed-job", f"deleted {sorted(gone - want_gone)} although referenced by an experiment index or backup index", w)
                 if want_gone - gone:
                     ctx.violation("orphans-keeps-unreferenced", f"kept {sorted(want_gone - gone)} although no index references them", w)
                 listed = {l.strip() for l in res.output.splitlines()}
                 for j in jobs:
-                    if j["rel"] in indexed and j["rel"] in listed:
+                    if j.get("linked_from") and j["rel"] in listed:
+                        if not linked_lost:
+                            ctx.violation("orphans-deletes-job-reached-through-link", f"{j['rel']} is listed as orphan although the indexed job jobs/{j['linked_from'][:40]}... is a link to it", w)
+                    elif j["rel"] in indexed and j["rel"] in listed:
                         ctx.violation("orphans-lists-indexed-job", f"{j['rel']} is indexed but reported as orphan", w)
                 ctx.case({"layout": [(j["state"], j["rel"] in indexed) for j in jobs], "cmd": args[2:]}, nontrivial=len(states) >= 3, sample={"indexed": len(indexed), "jobs": len(jobs), "deleted": len(gone)}, max_samples=2)
         finally:
